@@ -404,7 +404,7 @@ def gen_rect_case(rng, mode, fill):
     neg = rng.random() < 0.25
     src = rand_pixels(rng, mode, sh, sw, rng.choice(("none", "random", "random", "block", "rows", "all")), allow_neg=neg)
     buf = rand_pixels(rng, MASKABLE.get(mode, mode), bh, bw, rng.choice(("none", "random", "random", "block", "all")), allow_neg=neg)
-    return dict(type="rect", fill=fill, mode=mode, sh=sh, sw=sw, src=pack(mode, src), bh=bh, bw=bw,
+    return dict(type="rect", warm=(rng.random() < 0.35), fill=fill, mode=mode, sh=sh, sw=sw, src=pack(mode, src), bh=bh, bw=bw,
                 buf=pack(MASKABLE.get(mode, mode), buf), iy=list(iy), ix=list(ix), by=list(by), bx=list(bx))
 
 
@@ -418,8 +418,20 @@ def run_rect_case(case):
     buf = ImageMode[mode].make_maskable_buffer(case["bh"], case["bw"])
     if buf.mode.name != bm:
         return ("raise", f"buffer mode {buf.mode.name}")
-    buf.asarray()[...] = unpack(bm, case["bh"], case["bw"], case["buf"])
     sl = [slice(*case[k]) for k in ("iy", "ix", "by", "bx")]
+    if case.get("warm"):
+        # the same buffer object has a history: an earlier fill with the very same indexers (and an
+        # update), after which its content is overwritten wholesale; none of that may influence the
+        # operation under test
+        with warnings.catch_warnings():
+            warnings.simplefilter("ignore")
+            try:
+                src.fill_into_maskable_buffer(buf, *sl)
+                src.update_into_maskable_buffer(buf, *sl)
+                src.fill_into_maskable_buffer(buf, *sl)
+            except Exception:  # noqa
+                pass
+    buf.asarray()[...] = unpack(bm, case["bh"], case["bw"], case["buf"])
     try:
         with warnings.catch_warnings():
             warnings.simplefilter("ignore")
@@ -892,6 +904,31 @@ def roundtrip_table_check(rng, V, base):
 
 # ------------------------------------------------------------------ run
 
+def masked_default_aliasing(V, base):
+    """Two missing tiles read with default='masked' are two independent all-undefined tiles:
+    filling the first and then asking for the second must not disturb the first."""
+    import numpy as np
+    from toasty.image import ImageMode
+    from toasty.pyramid import PyramidIO, Pos
+    n = 0
+    for mode in MODES:
+        pio = PyramidIO(os.path.join(base, "alias_" + mode), default_format="npy")
+        m = ImageMode[mode]
+        a = pio.read_image(Pos(2, 0, 1), default="masked", masked_mode=m)
+        arr = a.asarray()
+        arr[3:9, 5:11] = 1 if arr.dtype.kind in "iu" else 1.5
+        keep = arr.copy()
+        b = pio.read_image(Pos(2, 3, 3), default="masked", masked_mode=m)
+        n += 1
+        same = np.array_equal(a.asarray(), keep, equal_nan=True) if keep.dtype.kind == "f" else np.array_equal(a.asarray(), keep)
+        if not same or np.shares_memory(a.asarray(), b.asarray()):
+            V.disagreement("C15: a missing tile reads back as an all-undefined tile of its own (read_image default='masked')",
+                           dict(type="masked-default-aliasing", mode=mode),
+                           "the first tile keeps its pixels when a second missing tile is read",
+                           "the first tile was cleared / shares memory with the second", True)
+    return n
+
+
 def run(ctx, V):
     rng = common.rng_for(ctx["seed"], "C15")
     tier = ctx["tier"]
@@ -999,6 +1036,7 @@ def run(ctx, V):
 
     # ---- round-trip table
     n_rt, table = roundtrip_table_check(rng, V, base)
+    n_rt += masked_default_aliasing(V, base)
 
     samples = [
         {k: (v if not isinstance(v, list) or len(v) < 30 else v[:30] + ["..."]) for k, v in rect_cases[-1].items()},
